@@ -78,6 +78,12 @@ def gen_bytes(seed, n):
     return bytes(out[:n])
 
 
+class ParResult:
+    """Outcome value of a concurrent section: the step logs of its processes."""
+    def __init__(self, logs):
+        self.logs = logs
+
+
 class Step:
     def __init__(self, op, api, params, outcome):
         self.op = op
@@ -128,6 +134,35 @@ class Scn:
     def distinct(self, b1, b2):
         """Two blobs that are different byte strings."""
         self.w.assume(z3.Not(sb.same_blob_var(b1, b2)))
+        if not hasattr(self.w, "distinct_blobs"):
+            self.w.distinct_blobs = set()
+        self.w.distinct_blobs.add(frozenset((b1.name, b2.name)))
+
+    # -- several users of the cache at once (separate processes: nothing shared but the filesystem)
+    def proc(self, tid=0):
+        """A further process using the same cache directory: own interpreter, shared filesystem."""
+        p = Scn.__new__(Scn)
+        p.cache_dir, p.w, p.flavour, p.api = self.cache_dir, self.w, self.flavour, self.api
+        p.env = self.env
+        p.s = Session(self.w, self.flavour, env=self.env)
+        p.log, p.handles, p.prov = [], [], {}
+        p.blobs = self.blobs
+        if getattr(self, "shared_syms", None) is not None:
+            p.shared_syms = self.shared_syms
+        p.tid = tid
+        return p
+
+    def par(self, thunks, label="par"):
+        """Run thunks[i](process_i) concurrently; the interleaving is part of the explored path.
+        Returns the process scenarios (their logs hold the outcomes)."""
+        from .sched import Scheduler
+        procs = [self.proc(i) for i in range(len(thunks))]
+        sch = Scheduler(self.env, self.w, label)
+        self.last_sched = sch
+        sch.run([(lambda p=p, th=th: th(p)) for p, th in zip(procs, thunks)])
+        out = Outcome("ok", ParResult([p.log for p in procs]))
+        self._record("par", self.api, dict(procs=[p.log for p in procs], sched=list(sch.schedule)), out)
+        return procs
 
     def same_len(self, b1, b2):
         self.w.assume(sb._bv(b1.len) == sb._bv(b2.len))
@@ -756,6 +791,8 @@ class Concretiser:
         raise Unreplayable("path %r" % (p,))
 
     def step(self, st):
+        if st.op == "par":
+            return {"op": "par", "procs": [[self.step(x) for x in lg] for lg in st.params["procs"]], "sched": list(st.params["sched"])}
         d = {"op": st.op.replace("_default", "").replace("create_with_algo", "create").replace("link_commit", "commit"), "api": st.api}
         if self.scn.cache_dir != CACHE:
             d["cache"] = self.path(self.scn.cache_dir)
